@@ -215,6 +215,11 @@ def bind_params(V, spec, args, kwargs, st):
         if t is None:
             out[n] = v
         else:
+            if isinstance(v, SV) and isinstance(v.t, OptT) and not isinstance(t, OptT) and t != ANY:
+                # an Optional passed where the callee's contract wants a value: None must be excluded
+                V.may_raise(st, z3.Not(opt_is_none(v.t, v.z)), 'TypeError',
+                            'argument %s of %s may be None' % (n, spec.name), None)
+                v = strip_opt(v)
             out[n] = as_sv(v, t) if t != NONE else MNONE
     return out, bound
 
@@ -428,7 +433,7 @@ def quantified(V, which, gen, st, gi=0, sub=None):
     g = gen.generators[gi]
     if sub is None:
         sub = st.fork()
-    it = V.ev(g.iter, sub)
+    it = V.nn(sub, V.ev(g.iter, sub), gen, 'iterable')
     if gi == 0 and len(gen.generators) == 1 and V.iter_items(it, sub, gen) is not None:
         return None     # static: handled by the plain comprehension
     i = z3.Int(fresh_name('q'))
@@ -436,6 +441,26 @@ def quantified(V, which, gen, st, gi=0, sub=None):
     if isinstance(it, MRange):
         dom = z3.And(i >= it.lo, i < it.hi)
         V.bind_target(g.target, SV(INT, i), sub, gen)
+    elif isinstance(it, SV) and isinstance(it.t, SeqT) and _concat_parts(it.z) is not None:
+        # all(P(x) for x in a ++ [b] ++ c)  ==  all over a, P(b), all over c   (meta-level split:
+        # solvers are weak on seq.nth over concatenations under quantifiers)
+        parts = []
+        for kind, term in _concat_parts(it.z):
+            s2 = sub.fork()
+            if kind == 'unit':
+                V.bind_target(g.target, SV(it.t.elem, term), s2, gen)
+                parts.append(_quant_body(V, which, gen, st, gi, s2, None, None))
+            else:
+                j = z3.Int(fresh_name('q'))
+                V.bind_target(g.target, SV(it.t.elem, term[j]), s2, gen)
+                parts.append(_quant_body(V, which, gen, st, gi, s2, j, z3.And(j >= 0, j < z3.Length(term))))
+        if not parts:
+            return SV(BOOL, z3.BoolVal(which == 'all'))
+        if len(parts) == 1:
+            return SV(BOOL, parts[0])
+        if which == 'all':
+            return SV(BOOL, z3.And(*parts))
+        return SV(BOOL, z3.Or(*parts))
     elif isinstance(it, SV) and isinstance(it.t, SeqT):
         dom = z3.And(i >= 0, i < z3.Length(it.z))
         V.bind_target(g.target, SV(it.t.elem, it.z[i]), sub, gen)
@@ -455,6 +480,22 @@ def quantified(V, which, gen, st, gi=0, sub=None):
     else:
         return None
     return SV(BOOL, _quant_body(V, which, gen, st, gi, sub, i, dom))
+
+
+def _concat_parts(z):
+    """[(kind, term)] if z is syntactically a concatenation / unit / empty, else None"""
+    k = z.decl().kind() if z3.is_app(z) else None
+    if k == z3.Z3_OP_SEQ_CONCAT:
+        out = []
+        for ch in z.children():
+            sub = _concat_parts(ch)
+            out.extend(sub if sub is not None else [('seq', ch)])
+        return out
+    if k == z3.Z3_OP_SEQ_UNIT:
+        return [('unit', z.arg(0))]
+    if k == z3.Z3_OP_SEQ_EMPTY:
+        return []
+    return None
 
 
 def _quant_body(V, which, gen, st, gi, sub, i, dom):
